@@ -54,6 +54,7 @@ func genC12(r *kernel.Rand) *kernel.Scenario {
 	c["bus_max_us"] = int64([]int{100, 400}[r.Intn(2)])
 	c["react_max_us"] = int64([]int{50, 500}[r.Intn(2)])
 	c["yield_pct"] = int64([]int{0, 30}[r.Intn(2)])
+	c["long_yields"] = int64(r.Intn(2))
 	c["ctx_ms"] = 15000
 	c["assets"] = int64(1 + r.Weighted([]int{3, 1}))
 	c["r"] = int64(r.Uint64() >> 2)
@@ -169,7 +170,9 @@ func execC12(tt *testing.T, sc *kernel.Scenario, trace bool) *kernel.Result {
 		s.Count("probe.hostile_messages", int64(sent))
 		<-holdDone
 		// faults have stopped: run past every internal timeout, then probe
-		t.A.OnUpdate = func(cur *channel.State, u client.ChannelUpdate) (bool, time.Duration) { return true, 50 * time.Microsecond }
+		t.A.OnUpdate = func(cur *channel.State, u client.ChannelUpdate) (bool, time.Duration) {
+			return true, 50 * time.Microsecond
+		}
 		time.Sleep(30 * time.Second)
 		probe := func(name string, n *world.Node, ch *client.Channel) {
 			type res struct {
